@@ -302,6 +302,15 @@ fn sets(nreq: usize, three: bool) -> Vec<SetSpec> {
         SetSpec { name: "empty-path-vs-[x]", transfers: vec![download_script(1, &none, 0, nreq, "GET []"), download_script(1, &x, 0, nreq, "GET [x]")] },
         SetSpec { name: "path-vs-shorter-path-plus-query([fw,slot1]-vs-[fw]?slot1)", transfers: vec![download_script(1, &[b"fw", b"slot1"], 0, nreq, "GET [fw,slot1]"), with_query(download_script(1, &[b"fw"], 0, nreq, "GET [fw]"), &[b"slot1"])] },
         SetSpec { name: "path+query-collision([a,b]?c-vs-[a]?b&c)", transfers: vec![with_query(upload_script(1, 3, &ab, 0, nreq, 0, "PUT [a,b]"), &[b"c"]), with_query(upload_script(1, 3, &a, 0, nreq, 0, "PUT [a]"), &[b"b", b"c"])] },
+        // classic collisions of weak string hashes / digests (x31 and x33 polynomials, byte sums, xor folds, equal length + same ends)
+        SetSpec { name: "hash-collision-x31([Aa]-vs-[BB])", transfers: vec![download_script(1, &[b"Aa"], 0, nreq, "GET [Aa]"), download_script(1, &[b"BB"], 0, nreq, "GET [BB]")] },
+        SetSpec { name: "hash-collision-x31([fw,s10]-vs-[fw,s0O])", transfers: vec![upload_script(1, 3, &[b"fw", b"s10"], 0, nreq, 0, "PUT [fw,s10]"), upload_script(1, 3, &[b"fw", b"s0O"], 0, nreq, 0, "PUT [fw,s0O]")] },
+        SetSpec { name: "hash-collision-x33([aa]-vs-[b@])", transfers: vec![upload_script(1, 3, &[b"aa"], 0, nreq, 0, "PUT [aa]"), upload_script(1, 3, &[b"b@"], 0, nreq, 0, "PUT [b@]")] },
+        SetSpec { name: "hash-collision-sum([ad]-vs-[bc])", transfers: vec![download_script(1, &[b"ad"], 0, nreq, "GET [ad]"), download_script(1, &[b"bc"], 0, nreq, "GET [bc]")] },
+        SetSpec { name: "hash-collision-xor([ab,cd]-vs-[cd,ab])", transfers: vec![download_script(1, &[b"ab", b"cd"], 0, nreq, "GET [ab,cd]"), download_script(1, &[b"cd", b"ab"], 0, nreq, "GET [cd,ab]")] },
+        SetSpec { name: "hash-collision-xor-fold([aa]-vs-[bb])", transfers: vec![upload_script(1, 3, &[b"aa"], 0, nreq, 0, "PUT [aa]"), upload_script(1, 3, &[b"bb"], 0, nreq, 0, "PUT [bb]")] },
+        SetSpec { name: "same-ends-and-length([sensor-a1x]-vs-[sensor-b1x])", transfers: vec![download_script(1, &[b"sensor-a1x"], 0, nreq, "GET a"), download_script(1, &[b"sensor-b1x"], 0, nreq, "GET b")] },
+        SetSpec { name: "long-common-prefix(300B)", transfers: vec![upload_script(1, 3, &[&[b'k'; 300][..], b"1"], 0, nreq, 0, "PUT k..,1"), upload_script(1, 3, &[&[b'k'; 300][..], b"2"], 0, nreq, 0, "PUT k..,2")] },
         SetSpec { name: "root-vs-one-empty-segment", transfers: vec![download_script(1, &none, 0, nreq, "GET []"), download_script(1, &[b""], 0, nreq, "GET [\"\"]")] },
         SetSpec { name: "leading-empty-segment([x]-vs-[,x])", transfers: vec![upload_script(1, 3, &x, 0, nreq, 0, "PUT [x]"), upload_script(1, 3, &[b"", b"x"], 0, nreq, 0, "PUT [\"\",x]")] },
         SetSpec { name: "trailing-empty-segment([x]-vs-[x,])", transfers: vec![download_script(1, &x, 1, nreq, "GET [x]"), download_script(1, &[b"x", b""], 1, nreq, "GET [x,\"\"]")] },
